@@ -7,6 +7,11 @@ from lentil import detector
 from vlib import gen
 from vlib.runner import Skip, Violation, hyp, lentil_call
 
+# the check's own calls are issued with keywords or positionally in the documented order (vlib/callforms.py)
+from vlib import callforms as _cf
+lentil = _cf.proxy(lentil)
+detector = _cf.proxy(detector, "detector.")
+
 RULE = ("non-negative images of 1..24 samples per axis (any aspect ratio and parity; smooth blobs, sparse points or "
         "dense noise), blur extents 0..6 samples, angles 0..360 deg, pixel scales and oversampling factors, circular "
         "shifts; non-trivial = image not constant and extent > 0; distinct = distinct canonical descriptors")
@@ -84,7 +89,7 @@ def blur_case(draw, tier, mega=False):
             **ptypes,
             "angle": draw(st.sampled_from([0, 90, 45.0, 180, 270, 30.0])) if draw(st.booleans()) else draw(gen.finite(0.0, 360.0)),
             "pixelscale": draw(gen.pos_log(1e-6, 1e-4)), "roll": [draw(st.integers(-30, 30)), draw(st.integers(-30, 30))],
-            "phys": draw(st.booleans())}
+            "phys": draw(st.booleans()), "positional": draw(st.booleans())}
 
 
 def _eight_bit_overflow(case):
@@ -100,19 +105,26 @@ def call(case, img, typed_angle=True):
     fn = case["fn"]
     os_ = gen.typed_scalar(case["oversample"], case.get("os_type"))
     ext = gen.typed_scalar(case["extent"], case.get("ext_type"))
+    # keyword calls, or positional calls in the documented parameter order:
+    #   pixel(img, oversample)  jitter(img, scale, pixelscale, oversample)  smear(img, distance, angle, pixelscale, oversample)
+    pos = bool(case.get("positional"))
     if fn == "pixel":
-        return detector.pixel(img, oversample=os_)
+        return detector.pixel(img, os_) if pos else detector.pixel(img, oversample=os_)
     if fn == "jitter":
         if case["phys"]:
+            if pos:
+                return lentil.jitter(img, ext * case["pixelscale"], case["pixelscale"], os_)
             return lentil.jitter(img, scale=ext * case["pixelscale"], pixelscale=case["pixelscale"], oversample=os_)
-        return lentil.jitter(img, scale=ext, oversample=os_)
+        return lentil.jitter(img, ext, 1, os_) if pos else lentil.jitter(img, scale=ext, oversample=os_)
     # the angle as a Python number or as an equal numpy scalar (when exactly representable); the call in physical
     # units always passes the plain number, so that a typed call is followed by an untyped one with equal arguments
     ang = case["angle"] if case["phys"] or typed_angle is False else gen.typed_scalar(case["angle"], case.get("angle_type"))
     if case["phys"]:
+        if pos:
+            return lentil.smear(img, ext * case["pixelscale"], ang, case["pixelscale"], os_)
         return lentil.smear(img, distance=ext * case["pixelscale"], angle=ang, pixelscale=case["pixelscale"],
                             oversample=os_)
-    return lentil.smear(img, distance=ext, angle=ang, oversample=os_)
+    return lentil.smear(img, ext, ang, 1, os_) if pos else lentil.smear(img, distance=ext, angle=ang, oversample=os_)
 
 
 def transfer(case, shape):
@@ -142,7 +154,7 @@ def blur(case, ctx):
     ctx.tag("fn:" + fn, "nonsquare" if shape[0] != shape[1] else "square", gen.parity_tags("img", shape),
             "img:" + case["kind"], "zero_extent" if ext == 0 else None,
             "sub_sample_extent" if 0 < ext * (1 if fn == "pixel" else case["oversample"]) < 1 else None, "phys_units" if case["phys"] and fn != "pixel" else None,
-            f"os:{case['oversample']}", "1xN" if 1 in shape else None,
+            f"os:{case['oversample']}", "1xN" if 1 in shape else None, "positional_call" if case.get("positional") else "keyword_call",
             "ext_type:" + type(gen.typed_scalar(case["extent"], case.get("ext_type"))).__name__,
             "os_type:" + type(gen.typed_scalar(case["oversample"], case.get("os_type"))).__name__,
             ("angle_type:" + type(gen.typed_scalar(case["angle"], case.get("angle_type"))).__name__) if fn == "smear" else None,
